@@ -49,6 +49,6 @@ class Parameter(CustomModel):
                 return self.NO_ECHO_NO_DEFAULT
 
         elif self.Type in ["List<Number>", "CommaDelimitedList"]:
-            return value.split(",")
+            return value if value is None else str(value).split(",")
 
         return value if value is None else str(value)
